@@ -100,6 +100,21 @@ type T15TwoEmb struct {
 }
 type EmbB struct{ X int } // makes X ambiguous at depth 1
 
+// embedding two levels deep, by pointer and by value
+type T15Leaf struct{ Q int }
+type T15Mid struct {
+	*T15Leaf
+	M int
+}
+type T15Deep struct {
+	*T15Mid
+	A int
+}
+type T15DeepV struct {
+	T15Mid
+	A int
+}
+
 // two distinct types with the same package path and name (function-local
 // declarations) and different layouts
 func localConfA() any {
@@ -127,7 +142,7 @@ func localConfC() any {
 }
 
 var family15 = []any{
-	localConfA(), localConfB(), localConfC(),
+	localConfA(), localConfB(), localConfC(), T15Deep{}, T15DeepV{}, T15Mid{},
 	T15Unexported{}, T15EmbVal{}, T15EmbPtr{}, T15EmbHidden{}, T15EmbHiddenPtr{}, T15Shadow{}, T15NameInt{},
 	T15NameLower{}, T15Iface{}, T15Ptrs{}, T15Inner{}, T15Nested{}, T15Kinds{}, T15NamedNonStruct{}, T15TwoEmb{},
 }
@@ -228,7 +243,15 @@ func verifyStored(v reflect.Value, b bcl.Block) string {
 			return fmt.Sprintf("nil returned, but the block name %q has no exported counterpart", b.Name)
 		}
 		fv, err := v.FieldByIndexErr(f.Index)
-		if err != nil || !sameStored(fv, b.Name) {
+		held := err == nil && sameStored(fv, b.Name)
+		// a key of the block may map to the very same field (a field spelled
+		// "Name"): like colliding keys, holding either value counts
+		for _, k := range sortedKeys(b.Fields) {
+			if kf, ok := findField(T, k); ok && fmt.Sprint(kf.Index) == fmt.Sprint(f.Index) && err == nil && sameStored(fv, b.Fields[k]) {
+				held = true
+			}
+		}
+		if !held {
 			return fmt.Sprintf("nil returned, but the block name %q is not in field %s", b.Name, f.Name)
 		}
 	}
@@ -296,7 +319,7 @@ func valuesOf(b bcl.Block, keys []string) []any {
 
 // ---- generators ----
 
-var keyPool = []string{"a", "b_c", "port", "Host", "max_size", "x", "y", "v", "int", "inner", "pinner", "ainner", "z_z", "u8", "i32", "f32", "m", "l", "arr", "fn", "ch", "c", "s", "i"}
+var keyPool = []string{"Name", "name", "_", "__", "q", "m", "a", "b_c", "port", "Host", "max_size", "x", "y", "v", "int", "inner", "pinner", "ainner", "z_z", "u8", "i32", "f32", "m", "l", "arr", "fn", "ch", "c", "s", "i"}
 
 func genValue15(t *rapid.T, depth int) any {
 	switch gen.Weighted(t, "valkind", 30, 15, 20, 12, 8, 15) {
